@@ -68,12 +68,14 @@ structure Le (c c' : Partial) : Prop where
   b : ∀ k x, c.bindings.lookup k = some x → c'.bindings.lookup k = some x
   v : ∀ k x, c.vb.lookup k = some x → c'.vb.lookup k = some x
   n : ∀ k x, c.nb.lookup k = some x → c'.nb.lookup k = some x
+  /-- the success flag is never set back to `True` -/
+  ok : c'.ok = true → c.ok = true := by first | exact id | exact (fun h => Bool.noConfusion h) | (intro h; simpa using h)
 
-theorem Le.refl (c : Partial) : Le c c := ⟨fun _ _ h => h, fun _ _ h => h, fun _ _ h => h⟩
+theorem Le.refl (c : Partial) : Le c c := ⟨fun _ _ h => h, fun _ _ h => h, fun _ _ h => h, id⟩
 
 theorem Le.trans {a b c : Partial} (h1 : Le a b) (h2 : Le b c) : Le a c :=
   ⟨fun k x h => h2.b k x (h1.b k x h), fun k x h => h2.v k x (h1.v k x h),
-   fun k x h => h2.n k x (h1.n k x h)⟩
+   fun k x h => h2.n k x (h1.n k x h), fun h => h1.ok (h2.ok h)⟩
 
 /-- assignment order -/
 structure ALe (A A' : Assign) : Prop where
@@ -158,7 +160,7 @@ structure Res (c : Partial) (r : R) (c' : Partial) : Prop where
 theorem fail_single (c : Partial) : fail [c] = (false, [{ c with ok := false }]) := rfl
 
 theorem ext_failed (c : Partial) : Ext c { c with ok := false } :=
-  ⟨⟨fun _ _ h => h, fun _ _ h => h, fun _ _ h => h⟩, rfl, rfl⟩
+  ⟨⟨fun _ _ h => h, fun _ _ h => h, fun _ _ h => h, fun h => Bool.noConfusion h⟩, rfl, rfl⟩
 
 theorem bind_spec (c : Partial) (k : String) (b : Bound) :
     ∃ c', Res c (bind [c] k b) c' ∧ Ext c c' ∧ c'.vb = c.vb ∧
@@ -176,7 +178,7 @@ theorem bind_spec (c : Partial) (k : String) (b : Bound) :
         fun h => by simp [fail_single] at h⟩
   · next hb =>
     refine ⟨{ c with bindings := c.bindings ++ [(k, b)] }, ⟨rfl, fun _ => rfl, fun h => by simp at h⟩,
-      ⟨⟨fun k' x h => lookup_snoc_of_some _ _ _ _ _ h, fun _ _ h => h, fun _ _ h => h⟩, rfl, rfl⟩, rfl,
+      ⟨⟨fun k' x h => lookup_snoc_of_some _ _ _ _ _ h, fun _ _ h => h, fun _ _ h => h, id⟩, rfl, rfl⟩, rfl,
       fun _ => lookup_snoc_self _ _ _ hb⟩
 
 theorem bindValue_spec (p : GPat) (c : Partial) (vp : VPat) (v : Option ValueId) :
@@ -189,7 +191,7 @@ theorem bindValue_spec (p : GPat) (c : Partial) (vp : VPat) (v : Option ValueId)
     · simp only [lookupVB_single]
       rcases hv : c.vb.lookup k with _ | v' <;> dsimp only
       · refine ⟨{ c with vb := c.vb ++ [(k, v)] }, ⟨rfl, fun _ => rfl, fun h => by simp at h⟩,
-          ⟨⟨fun _ _ h => h, fun k' x h => lookup_snoc_of_some _ _ _ _ _ h, fun _ _ h => h⟩, rfl, rfl⟩,
+          ⟨⟨fun _ _ h => h, fun k' x h => lookup_snoc_of_some _ _ _ _ _ h, fun _ _ h => h, id⟩, rfl, rfl⟩,
           fun _ => lookup_snoc_self _ _ _ hv⟩
       · by_cases h : (v' == v) = true
         · simp only [h, if_true]
@@ -224,7 +226,7 @@ theorem bindValue2_spec (fix2 : Bool) (p : GPat) (c : Partial) (vp : VPat) (v : 
           | some x => simp [hl] at hnone
         refine ⟨{ c1 with vb := c1.vb ++ [(k, v)] },
           ⟨rfl, fun _ => r1.okT ht, fun h => by simp at h⟩, e1.trans
-            ⟨⟨fun _ _ h => h, fun k' x h => lookup_snoc_of_some _ _ _ _ _ h, fun _ _ h => h⟩, rfl, rfl⟩,
+            ⟨⟨fun _ _ h => h, fun k' x h => lookup_snoc_of_some _ _ _ _ _ h, fun _ _ h => h, id⟩, rfl, rfl⟩,
           fun _ => ?_⟩
         have hb := b1 ht
         unfold Assign.boundTo at hb ⊢
@@ -805,7 +807,7 @@ theorem nodeStep_spec (E : Env) (rec : NPId → NodeId → Stack → R) (hrec : 
         rw [hc2] at hr
         have hm1 : c1.nb.lookup np = none := by rw [e1.nb]; exact hm
         have l12 : Le c1 c2 :=
-          ⟨fun _ _ h => h, fun _ _ h => h, fun k x h => lookup_snoc_of_some _ _ _ _ _ h⟩
+          ⟨fun _ _ h => h, fun _ _ h => h, fun k x h => lookup_snoc_of_some _ _ _ _ _ h, id⟩
         have hnp2 : c2.nb.lookup np = some n := lookup_snoc_self _ _ _ hm1
         have nb2 : NB c2 := by
           have := hnb.ext e1
